@@ -3,9 +3,9 @@
 // operation, unwrap and `bytes` cursor advance. One harness per concrete length.
 
 macro_rules! total {
-    ($name:ident, $ty:ident, $n:expr) => {
+    ($name:ident, $ty:ident, $n:expr, $u:expr) => {
         #[kani::proof]
-        #[kani::unwind(70)]
+        #[kani::unwind($u)]
         fn $name() {
             let mut b = static_bytes::<$n>();
             let r = $ty::decode(&mut b);
@@ -13,9 +13,9 @@ macro_rules! total {
             core::mem::forget(r);
         }
     };
-    ($name:ident, $ty:ident, $n:expr, errs) => {
+    ($name:ident, $ty:ident, $n:expr, $u:expr, errs) => {
         #[kani::proof]
-        #[kani::unwind(70)]
+        #[kani::unwind($u)]
         fn $name() {
             let mut b = static_bytes::<$n>();
             let r = $ty::decode(&mut b);
@@ -23,40 +23,40 @@ macro_rules! total {
         }
     };
 }
-total!(c07_client_hello_0, ClientHello, 0, errs);
-total!(c07_client_hello_33, ClientHello, 33, errs);
-total!(c07_client_hello_34, ClientHello, 34, errs);
-total!(c07_client_hello_35, ClientHello, 35, errs);
-total!(c07_client_hello_36, ClientHello, 36, errs);
-total!(c07_client_hello_39, ClientHello, 39);
-total!(c07_client_hello_42, ClientHello, 42);
-total!(c07_server_hello_0, ServerHello, 0, errs);
-total!(c07_server_hello_34, ServerHello, 34, errs);
-total!(c07_server_hello_35, ServerHello, 35, errs);
-total!(c07_server_hello_38, ServerHello, 38);
-total!(c07_server_hello_42, ServerHello, 42);
-total!(c07_hvr_0, HelloVerifyRequest, 0, errs);
-total!(c07_hvr_2, HelloVerifyRequest, 2, errs);
-total!(c07_hvr_3, HelloVerifyRequest, 3);
-total!(c07_hvr_8, HelloVerifyRequest, 8);
-total!(c07_ske_0, ServerKeyExchange, 0, errs);
-total!(c07_ske_3, ServerKeyExchange, 3, errs);
-total!(c07_ske_4, ServerKeyExchange, 4, errs);
-total!(c07_ske_8, ServerKeyExchange, 8);
-total!(c07_ske_12, ServerKeyExchange, 12);
-total!(c07_cert_0, CertificateMessage, 0, errs);
-total!(c07_cert_2, CertificateMessage, 2, errs);
-total!(c07_cert_3, CertificateMessage, 3);
-total!(c07_cert_10, CertificateMessage, 10);
-total!(c07_cke_0, ClientKeyExchange, 0, errs);
-total!(c07_cke_1, ClientKeyExchange, 1);
-total!(c07_cke_6, ClientKeyExchange, 6);
-total!(c07_finished_12, Finished, 12);
+total!(c07_client_hello_0, ClientHello, 0, 32, errs);
+total!(c07_client_hello_33, ClientHello, 33, 36, errs);
+total!(c07_client_hello_34, ClientHello, 34, 37, errs);
+total!(c07_client_hello_35, ClientHello, 35, 38, errs);
+total!(c07_client_hello_36, ClientHello, 36, 39, errs);
+total!(c07_client_hello_39, ClientHello, 39, 42);
+total!(c07_client_hello_42, ClientHello, 42, 45);
+total!(c07_server_hello_0, ServerHello, 0, 32, errs);
+total!(c07_server_hello_34, ServerHello, 34, 37, errs);
+total!(c07_server_hello_35, ServerHello, 35, 38, errs);
+total!(c07_server_hello_38, ServerHello, 38, 41);
+total!(c07_server_hello_42, ServerHello, 42, 45);
+total!(c07_hvr_0, HelloVerifyRequest, 0, 6, errs);
+total!(c07_hvr_2, HelloVerifyRequest, 2, 6, errs);
+total!(c07_hvr_3, HelloVerifyRequest, 3, 6);
+total!(c07_hvr_8, HelloVerifyRequest, 8, 11);
+total!(c07_ske_0, ServerKeyExchange, 0, 6, errs);
+total!(c07_ske_3, ServerKeyExchange, 3, 6, errs);
+total!(c07_ske_4, ServerKeyExchange, 4, 7, errs);
+total!(c07_ske_8, ServerKeyExchange, 8, 11);
+total!(c07_ske_12, ServerKeyExchange, 12, 15);
+total!(c07_cert_0, CertificateMessage, 0, 6, errs);
+total!(c07_cert_2, CertificateMessage, 2, 6, errs);
+total!(c07_cert_3, CertificateMessage, 3, 6);
+total!(c07_cert_10, CertificateMessage, 10, 13);
+total!(c07_cke_0, ClientKeyExchange, 0, 6, errs);
+total!(c07_cke_1, ClientKeyExchange, 1, 6);
+total!(c07_cke_6, ClientKeyExchange, 6, 9);
+total!(c07_finished_12, Finished, 12, 15);
 
 macro_rules! total_opt {
     ($name:ident, $ty:ident, $n:expr) => {
         #[kani::proof]
-        #[kani::unwind(40)]
+        #[kani::unwind(20)]
         fn $name() {
             let mut b = static_bytes::<$n>();
             let r = $ty::decode(&mut b);
@@ -71,7 +71,7 @@ total_opt!(c07_hs_msg_16, HandshakeMessage, 16);
 
 /// canary: "ClientHello::decode never succeeds on 42 bytes" is false — must FAIL
 #[kani::proof]
-#[kani::unwind(70)]
+#[kani::unwind(45)]
 fn canary_client_hello_42_always_err() {
     let mut b = static_bytes::<42>();
     let r = ClientHello::decode(&mut b);
